@@ -268,7 +268,7 @@ fn gen_timer_once(seed: u64, o: &TimerOpts) -> Spec {
         return gen_chain(rng.next(), o);
     }
     let n = rng.range(1, o.max_nodes as u64) as usize;
-    let mut spec = Spec { seed, ttl: rng.range(3, 6) as u8, start: rng.below(2) * 1_000_000_000 + rng.below(3), drv_slots: 4, ..Default::default() };
+    let mut spec = Spec { seed, ttl: rng.range(3, 6) as u8, start: *rng.pick(&[0u64, 1, 2, 999_999_998, 999_999_999, 1_000_000_000, 1_000_000_001, 1_999_999_999, 4_294_967_295_999_999_999]), drv_slots: 4, ..Default::default() };
     spec.sinks.push(SinkSpec::Buffer(4096));
     // A small per-bench lattice makes coincidences frequent.
     let mut lat: Vec<u64> = Vec::new();
